@@ -165,7 +165,13 @@ NA = {
  "C29": "quantifies over programs; program structure is not a scalar a solver can range over, running a fixed program list concretely would be testing (DESIGN.md 5)",
  "C43": "data-race freedom under the Go memory model: the engine explores interleavings at synchronisation operations only, which presupposes race freedom (DESIGN.md 5)",
 }
-NOT_YET = "check not built yet in this session (planned in DESIGN.md 4); not claimed"
+NA.update({
+ "C25": "harness for EvalRaw vs Eval was still being written/run by a helper when time ran out; nothing ran clean, so nothing is claimed (DESIGN.md 8.6). The raw comparison inherits the negative-number packed-order defect recorded under C13",
+ "C30": "harness for Folder vs Factory evaluation was still being written/run by a helper when time ran out; nothing ran clean, so nothing is claimed (DESIGN.md 8.6)",
+ "C35": "record rules need the Thread rule stack, observers and callable rule values driven through SuRecord; not attempted in the time available (DESIGN.md 8.6)",
+ "C40": "a transport harness exists (harness/dbms/mux/c40_frames.go) but every path exhausts the engine's step budget, cause not found in time; disabled, nothing claimed. The wire encodings are covered by C14 (DESIGN.md 8.6)",
+})
+NOT_YET = "check not built in this session; not claimed"
 
 checks = []
 for p in props:
